@@ -206,7 +206,8 @@ impl Drop for SampleOnDrop {
                 elapsed: ns(turmoil::elapsed()),
                 sim_elapsed: ns(turmoil::sim_elapsed().unwrap()),
                 since_epoch: ns(turmoil::since_epoch().unwrap()),
-                inst: 0,
+                // tokio's own clock, as time since this task's incarnation started
+                inst: ns(self.4.elapsed()),
             });
         }
     }
@@ -398,6 +399,20 @@ fn check(s: &Scn, ex: &Exec, out: &mut ScenarioOut) {
         out.count("host_samples", 1);
         if sm.phase == 99 {
             out.count("clock_samples_taken_by_destructors_during_crash_or_bounce", 1);
+            // tokio's clock seen by the destructor agrees with the host clock: the first sample of
+            // this (host, incarnation, task) fixes the offset between the two
+            if let Some((_, first)) = ex.samples.iter().find(|(_, f)| f.host == sm.host && f.inc == sm.inc && f.task == sm.task && f.phase != 99) {
+                let by_host = sm.elapsed as i128 - first.elapsed as i128;
+                let by_tokio = sm.inst as i128 - first.inst as i128;
+                if whole_ms && by_host != by_tokio {
+                    complain(
+                        out,
+                        "destructor-instant",
+                        String::new(),
+                        format!("host {} incarnation {}: a destructor run by crash/bounce reads tokio's clock {} ns after the task's first sample, the host clock says {} ns", sm.host, sm.inc, by_tokio, by_host),
+                    );
+                }
+            }
         }
         let n = *step;
         let off = s.hosts[sm.host].register_at * t;
